@@ -36,7 +36,14 @@ CHECKS = {
    note='Values outside the enumerated alphabets/lengths are not covered; references: snprintf, bit-accumulator Base64, bitwise CRC written in the harness.'), 'C20': dict(engine='E4-enum', category='exploration', design='DESIGN.md 6, 9/C20, harness/C20/NOTES.md',
    technique='complete walk of a finite RFC 7230/3986 grammar (request lines, status lines, header blocks, all single smuggling edits) through the real parser, compared with an independent ABNF reference parser (bounded exhaustive exploration)',
    text='Every request line / status line / header block the finite generator can produce (quick: blocks of <=3 fields, thorough <=4) plus every single edit introducing a listed smuggling pattern is parsed by the real http.c; returned spans must equal an independent reference parser and be sub-spans of the input, header lookup must return exactly the case-insensitively matching fields (OWS trimmed, obs-fold honoured) with the true count, and http_req_sec_chk must reject iff a listed pattern is present.',
-   note='Constructs outside the generator (userinfo, fragments, pct-encoding, obs-text, lower-case extension methods, octets >= 0x80) are not covered; path trimming is demanded exactly as the comments in http.c document it; see harness/C20/NOTES.md for the decisions.'),
+   note='Constructs outside the generator (userinfo, fragments, pct-encoding, obs-text, lower-case extension methods, octets >= 0x80) are not covered; path trimming is demanded exactly as the comments in http.c document it; see harness/C20/NOTES.md for the decisions.'), 'C13': dict(engine='E4-enum', category='exploration', design='DESIGN.md 6, 9/C13, harness/C13/NOTES.md',
+   technique='small-scope exhaustive enumeration of hostile packets (header fields over their own alphabets, tails over per-protocol alphabets up to a length bound, every truncation) through the real parsers, exact-size heap copies under ASan, span-containment oracle, CPU watchdog',
+   text='DNS, RADIUS, DHCPv4, HTTP, SDP, SAP, RTP and MPEG-TS parsers/validators are called on every packet of the enumerated scope placed flush against an ASan redzone: no memory error, every returned pointer/length inside the message or the caller buffer, termination. Accessors documented as call-after-validator are only driven with packets the library validator accepted.',
+   note='Byte values outside the per-parser alphabets and lengths beyond the bound are not covered; RFC conformance of returned values is not judged here; see harness/C13/NOTES.md for the scope table and the 12 defects found and fixed.'),
+ 'C15': dict(engine='E3-seqbfs', category='model_checking', design='DESIGN.md 5, 9/C15, harness/C15/NOTES.md',
+   technique='exhaustive enumeration of builder operation sequences on the real DNS/RADIUS builders (every section-ordered add sequence up to the depth bound into every buffer capacity; every attribute sequence x code x secret), each compared with independent RFC 1035 / RFC 2865 / RFC 2869 reference encoders and verifiers; all single-byte corruptions',
+   text='Every DNS message built by a sequence of <=3 (quick) / <=5 (thorough) add operations into every capacity from header-only to exactly-fits+1 must validate, parse back field for field and be byte-identical to an independent RFC 1035 encoder (a failing add leaves the message unchanged); 69904 names round-trip. Every RADIUS packet (6 codes x attribute sequences <=3 x 4 secrets) signed by the library must verify and equal the reference authenticators (own MD5/HMAC-MD5 checked against hashlib at run time); for every single-byte/bit corruption and wrong secret the library decision equals the reference verifier decision.',
+   note='No name compression (the library does not compress); names > 253 bytes only observed; accounting Message-Authenticator is the de-facto construction; see harness/C15/NOTES.md.'),
 }
 
 REASON_WIP = 'check not finished yet in this session (harness under construction; see DESIGN.md section 13)'
